@@ -40,6 +40,7 @@ func (m *MW) Handler() rux.HandlerFunc {
 		}
 		if rec.Extra != nil && rec.Extra["want_snapshot"] == true && rec.Extra["snapshot"] == nil {
 			// C10: the first instrumented handler of the request records how it finds the context
+			lateWrites(rec)
 			rec.Extra["snapshot"] = ctxSnapshot(c, rec)
 		}
 		if m.Pre != nil {
@@ -76,14 +77,15 @@ type GroupStmt struct {
 }
 
 type RouteStmt struct {
-	Name      string
-	Method    string
-	Path      string // as written in the registration call (relative to the group)
-	Variadic  []*MW  // middleware passed to GET(...)
-	LaterUse  [][]*MW
-	LaterAtEnd bool // route.Use calls happen after the whole program ran (else right away)
-	Main      *MW
-	Probe     bool // C12 probe route
+	Name       string
+	Method     string
+	Path       string // as written in the registration call (relative to the group)
+	Variadic   []*MW  // middleware passed to GET(...)
+	LaterUse   [][]*MW
+	LaterAtEnd bool   // route.Use calls happen after the whole program ran (else right away)
+	Style      string // "" = r.GET/POST/...(path, main, mw...); "any" = r.Any(path, main, mw...); "prepared" = NewRoute(...).Use(mw...) then r.AddRoute; "attach" = NewRoute(...).Use(mw...).AttachTo(r)
+	Main       *MW
+	Probe      bool // C12 probe route
 
 	// filled by the model
 	FullPath string
@@ -112,14 +114,14 @@ type Program struct {
 	PanicHook  bool // install an OnPanic hook (status 500)
 
 	// computed by Model()
-	Globals    []*MW
-	Routes     []*RouteStmt
-	NotFoundH  []*MW
-	NotAllowH  []*MW
-	MaxDepth   int
-	Siblings   bool
-	UseInGroup bool
-	UseAfter   bool // a top-level Use after some route was registered
+	Globals         []*MW
+	Routes          []*RouteStmt
+	NotFoundH       []*MW
+	NotAllowH       []*MW
+	MaxDepth        int
+	Siblings        bool
+	UseInGroup      bool
+	UseAfter        bool // a top-level Use after some route was registered
 	RouteAfterGroup bool
 }
 
@@ -152,7 +154,16 @@ func describeStmts(body []Stmt, indent string, out *[]string) {
 			if later != "" && x.LaterAtEnd {
 				later += " (at program end)"
 			}
-			*out = append(*out, fmt.Sprintf("%s%s = %s(%q, main=%s, mw=%s)%s", indent, x.Name, x.Method, x.Path, x.Main.String(), mwList(x.Variadic), later))
+			style := x.Method
+			switch x.Style {
+			case "any":
+				style = "Any"
+			case "prepared":
+				style = "AddRoute(NewRoute+Use) " + x.Method
+			case "attach":
+				style = "NewRoute+Use.AttachTo " + x.Method
+			}
+			*out = append(*out, fmt.Sprintf("%s%s = %s(%q, main=%s, mw=%s)%s", indent, x.Name, style, x.Path, x.Main.String(), mwList(x.Variadic), later))
 		case NotFoundStmt:
 			*out = append(*out, fmt.Sprintf("%sNotFound%s", indent, mwList(x.H)))
 		case NotAllowedStmt:
@@ -277,17 +288,31 @@ func (p *Program) Build(extra ...func(*rux.Router)) *rux.Router {
 				var route *rux.Route
 				main := x.Main.Handler()
 				mws := handlersOf(x.Variadic)
-				switch x.Method {
-				case "GET":
-					route = r.GET(x.Path, main, mws...)
-				case "POST":
-					route = r.POST(x.Path, main, mws...)
-				case "PUT":
-					route = r.PUT(x.Path, main, mws...)
-				case "DELETE":
-					route = r.DELETE(x.Path, main, mws...)
-				default:
-					route = r.Add(x.Path, main, x.Method).Use(mws...)
+				switch x.Style {
+				case "any":
+					// Any() builds the route, attaches the middleware, then registers it
+					r.Any(x.Path, main, mws...)
+					route = findRoute(r, x.Method, x)
+				case "prepared":
+					route = rux.NewRoute(x.Path, main, x.Method).Use(mws...)
+					r.AddRoute(route)
+				case "attach":
+					route = rux.NewRoute(x.Path, main, x.Method).Use(mws...)
+					route.AttachTo(r)
+				}
+				if route == nil {
+					switch x.Method {
+					case "GET":
+						route = r.GET(x.Path, main, mws...)
+					case "POST":
+						route = r.POST(x.Path, main, mws...)
+					case "PUT":
+						route = r.PUT(x.Path, main, mws...)
+					case "DELETE":
+						route = r.DELETE(x.Path, main, mws...)
+					default:
+						route = r.Add(x.Path, main, x.Method).Use(mws...)
+					}
 				}
 				x.route = route
 				x.pathAtReg = route.Path()
@@ -318,6 +343,26 @@ func (p *Program) Build(extra ...func(*rux.Router)) *rux.Router {
 		}
 	}
 	return r
+}
+
+// findRoute locates the route object registered by Router.Any (which returns nothing).
+func findRoute(r *rux.Router, method string, x *RouteStmt) *rux.Route {
+	var found *rux.Route
+	r.IterateRoutes(func(rt *rux.Route) {
+		if found == nil && len(rt.Methods()) == 9 && rt.Path() == x.FullPath {
+			found = rt
+		}
+	})
+	if found == nil {
+		// fall back to the unique /r<k> segment (the path itself is what C12 checks)
+		seg := "/" + strings.Split(strings.Trim(normPrefix(x.Path), "/"), "/")[0]
+		r.IterateRoutes(func(rt *rux.Route) {
+			if found == nil && len(rt.Methods()) == 9 && (strings.HasSuffix(rt.Path(), seg) || strings.Contains(rt.Path(), seg+"/")) {
+				found = rt
+			}
+		})
+	}
+	return found
 }
 
 // ----- onion interpreter -----
@@ -359,6 +404,10 @@ type progGen struct {
 	ctrl     bool // allow Controller registrations
 	maxMW    int  // max middleware per list
 	noGlobal bool // no top-level Use statements
+	styles   bool // also register through Any / prepared NewRoute+Use+AddRoute / AttachTo
+
+	curPrefix string          // spelling of the innermost enclosing group's prefix ("" at top level)
+	usedSelf  map[string]bool // (prefix, method) pairs already used for a route path equal to the prefix
 }
 
 func (g *progGen) mw(prefix string) *MW {
@@ -376,6 +425,24 @@ func (g *progGen) mws(prefix string, max int) []*MW {
 }
 
 func (g *progGen) route(probe bool) *RouteStmt {
+	rs := g.route0(probe)
+	// a route whose own path repeats the prefix of the group it is registered in
+	// ("/g3" or "/g3/r7" inside Group("/g3")): still relative to the group
+	if g.curPrefix != "" && chance(g.r, 1, 8) {
+		if chance(g.r, 1, 2) {
+			rs.Path = g.curPrefix + "/" + strings.TrimPrefix(rs.Path, "/")
+		} else if !g.usedSelf[g.curPrefix+rs.Method] {
+			g.usedSelf[g.curPrefix+rs.Method] = true
+			rs.Path = g.curPrefix
+			if rs.Style == "any" {
+				rs.Style = "prepared" // keep (method, path) pairs unique
+			}
+		}
+	}
+	return rs
+}
+
+func (g *progGen) route0(probe bool) *RouteStmt {
 	g.nRoute++
 	rs := &RouteStmt{Name: fmt.Sprintf("R%d", g.nRoute), Method: pick(g.r, []string{"GET", "GET", "POST", "PUT", "DELETE", "PATCH"}), Probe: probe}
 	rs.Path = fmt.Sprintf("/r%d", g.nRoute)
@@ -387,6 +454,9 @@ func (g *progGen) route(probe bool) *RouteStmt {
 	}
 	rs.Main = g.mw("h")
 	rs.Main.Main = true
+	if g.styles && chance(g.r, 1, 3) {
+		rs.Style = pick(g.r, []string{"any", "prepared", "attach"})
+	}
 	if !probe {
 		rs.Variadic = g.mws("m", g.maxMW)
 		if chance(g.r, 1, 3) {
@@ -428,7 +498,13 @@ func (g *progGen) body(depth int, budget *int) []Stmt {
 			if g.ctrl && chance(g.r, 1, 4) {
 				gs.Via = "controller"
 			}
+			saved := g.curPrefix
+			g.curPrefix = "/" + strings.Trim(gs.Prefix, "/ ")
+			if g.curPrefix == "/" {
+				g.curPrefix = ""
+			}
 			gs.Body = g.body(depth+1, budget)
+			g.curPrefix = saved
 			out = append(out, gs)
 			if g.probes {
 				out = append(out, g.route(true))
@@ -443,6 +519,7 @@ func (g *progGen) body(depth int, budget *int) []Stmt {
 // GenProgram draws a registration program.
 func GenProgram(r *rand.Rand, g *progGen) *Program {
 	g.r = r
+	g.usedSelf = map[string]bool{}
 	if g.nexts == nil {
 		g.nexts = func() int {
 			switch x := r.IntN(10); {
@@ -483,11 +560,16 @@ func GenProgram(r *rand.Rand, g *progGen) *Program {
 			p.Body = append(p.Body, UseStmt{ms})
 		}
 	}
-	if chance(r, 1, 3) {
-		p.Body = append(p.Body, NotFoundStmt{append(g.mws("nf", 2), g.mw("nf"))})
+	insertAt := func(st Stmt) {
+		// anywhere at top level: before, between or after the Use/route/group statements
+		i := r.IntN(len(p.Body) + 1)
+		p.Body = append(p.Body[:i:i], append([]Stmt{st}, p.Body[i:]...)...)
 	}
 	if chance(r, 1, 3) {
-		p.Body = append(p.Body, NotAllowedStmt{append(g.mws("na", 2), g.mw("na"))})
+		insertAt(NotFoundStmt{append(g.mws("nf", 2), g.mw("nf"))})
+	}
+	if chance(r, 1, 3) {
+		insertAt(NotAllowedStmt{append(g.mws("na", 2), g.mw("na"))})
 	}
 	if chance(r, 1, 3) {
 		p.CacheCap = pick(r, []int{1, 2, 1000})
